@@ -72,21 +72,22 @@ Qed.
 
 (* play() in the stopped state with a current track: that track is (re)started *)
 Lemma play_none_run f c w :
-  pstate w = Stopped -> pending w = None -> current w = Some c -> pending_position w = None ->
+  pstate w <> Paused -> pending w = None -> current w = Some c -> pending_position w = None ->
   tkind_has_backend (kind_of w (trk c)) = true -> accepts w c ->
   play shuf (S f) None w = (Ok tt, fx_change c Playing w).
 Proof.
   intros Hs Hp Hc Hpp Hb Ha. unfold play.
-  assert (E0 : get w = (Ok w, w)) by reflexivity. step E0. rewrite Hs. cbv beta iota.
-  assert (E1 : ret tt w = (Ok tt, w)) by reflexivity. step E1.
-  rewrite Hp, Hc. cbn [orelse].
-  assert (E2 : ret (Some c) w = (Ok (Some c), w)) by reflexivity. step E2.
-  step E0. cbn [play_loop].
-  step (change_run shuf c Playing w c Hpp Hc Hb Ha). reflexivity.
+  assert (E0 : get w = (Ok w, w)) by reflexivity. step E0.
+  assert (E1 : ret tt w = (Ok tt, w)) by reflexivity.
+  destruct (pstate w) eqn:Es; [| |contradiction]; cbv beta iota.
+  all: step E1; rewrite Hp, Hc; cbn [orelse].
+  all: assert (E2 : ret (Some c) w = (Ok (Some c), w)) by reflexivity; step E2.
+  all: step E0; cbn [play_loop].
+  all: step (change_run shuf c Playing w c Hpp Hc Hb Ha); reflexivity.
 Qed.
 
 Theorem play_stopped_agreement f c w :
-  settled_on w c -> pstate w = Stopped -> consume w = false -> accepts w c ->
+  settled_on w c -> pstate w <> Paused -> consume w = false -> accepts w c ->
   let w' := run_world shuf (S f) w [Play None; Deliver; Deliver; Deliver; Deliver] in
   current w' = Some c /\ pstate w' = Playing /\ pending w' = None /\ queue w' = []
   /\ a_uri w' = Some (trk c) /\ a_state w' = Playing /\ World.tl w' = World.tl w.
@@ -223,6 +224,41 @@ Proof.
   rewrite (stepw_eq shuf (S f) Deliver w1 RNone w2 _ _ (run_op_bind_none _ w1 tt w2 D1) G2).
   unfold run_world. cbn [fold_left].
   repeat split; try reflexivity; assumption.
+Qed.
+
+
+(* ---- play(tlid) while a track is current (playing, paused or stopped): switch to that entry *)
+Lemma play_some_run f i x c w :
+  1 <= i -> find (fun y => tlid y =? i) (World.tl w) = Some x ->
+  current w = Some c -> pending_position w = None ->
+  tkind_has_backend (kind_of w (trk c)) = true -> accepts w x ->
+  play shuf (S f) (Some i) w = (Ok tt, fx_change x Playing w).
+Proof.
+  intros Hi Hf Hc Hpp Hb Ha. unfold play.
+  assert (E0 : get w = (Ok w, w)) by reflexivity. step E0. cbv beta iota.
+  replace (i <? 1) with false by lia.
+  assert (E1 : ret tt w = (Ok tt, w)) by reflexivity. step E1.
+  rewrite Hf. cbn [orelse].
+  assert (E2 : ret (Some x) w = (Ok (Some x), w)) by reflexivity. step E2.
+  step E0. cbn [play_loop].
+  step (change_run shuf x Playing w c Hpp Hc Hb Ha). reflexivity.
+Qed.
+
+Theorem play_other_agreement f i x c w :
+  settled_on w c -> consume w = false -> 1 <= i ->
+  find (fun y => tlid y =? i) (World.tl w) = Some x -> accepts w x ->
+  let w' := run_world shuf (S f) w [Play (Some i); Deliver; Deliver; Deliver; Deliver] in
+  current w' = Some x /\ pstate w' = Playing /\ pending w' = None /\ queue w' = []
+  /\ a_uri w' = Some (trk x) /\ a_state w' = Playing /\ World.tl w' = World.tl w.
+Proof.
+  intros [Hq Hp Hpp Hsa Hsp Hpf Hc Hb Ha] Hco Hi Hf Hacc.
+  pose proof (play_some_run f i x c w Hi Hf Hc Hpp Hb Hacc) as E1.
+  set (w1 := fx_change x Playing w) in *.
+  assert (G1 : get_time_position w1 = (Ok (a_pos w1), fx_gtp w1)).
+  { apply (gtp_run w1 c); [exact Hpp|exact Hc|exact Hb]. }
+  cbv zeta. rewrite run_world_cons.
+  rewrite (stepw_eq shuf (S f) (Play (Some i)) w RNone w1 _ _ (run_op_bind_none _ w tt w1 E1) G1).
+  exact (change_settles f x c w Hq Hpp Hsa Hsp Hc Hb Hco Hacc).
 Qed.
 
 End P.
